@@ -199,8 +199,9 @@ Print Assumptions C05_selection_loop_is_the_sources.
 (* the version index queries the selection reads through (get_all_versions_for_task: all_entries_for_task; get_latest_output_version:
    latest_task_version -- exact match on the task identifier, newest first) are, text for text, the ones the list functions
    versions_for / latest transcribe (harness/gen_generated.py copy_item compares the whitespace-normalised SQL on every run) *)
-Theorem C05_index_queries_are_the_transcribed_ones : gen_sql_texts_are_the_transcribed_ones = true.
-Proof. reflexivity. Qed.
+Theorem C05_index_queries_are_the_transcribed_ones :
+  gen_sql_texts_are_the_transcribed_ones = true /\ gen_index_readers_return_one_entry_per_row = true.
+Proof. split; reflexivity. Qed.
 Print Assumptions C05_index_queries_are_the_transcribed_ones.
 
 Theorem C05_selection_steps_are_the_sources :
